@@ -8,11 +8,11 @@
 //   Poly1CRT<Field>                                   (givpoly1crt*.{h,inl})
 //
 // Line protocol (numbers in hex):
-//   irns <hist> <n> p.. <nb> b.. r.. a            = x m_0..m_{n-1} c_1..c_{n-1} t_0..t_{n-1} prod y
-//   rns.<dom> <hist> <n> p.. <nb> b.. r.. a       = x m_0..m_{n-1} c_1..c_{n-1} t_0..t_{n-1} y
-//   fixed <hist> <n> p.. r..                      = x
+//   irns <hist> <n> p.. <nb> b.. r.. a            = x m_0..m_{n-1} c_1..c_{n-1} t_0..t_{n-1} prod y acc
+//   rns.<dom> <hist> <n> p.. <nb> b.. r.. a       = x m_0..m_{n-1} c_1..c_{n-1} t_0..t_{n-1} y acc      (acc: accessor agreement bits)
+//   fixed <hist> <n> p.. r..                      = x L s_0 e.. s_1 e.. … size() ith(0).. x'   (L levels of Primes(); x' from another container)
 //   cra.<dom> <hist> M d A e                      = res resNoReduce
-//   pcrt.<dom> <hist> p <n> a.. r..               = k c_0..c_{k-1} t_0..t_{n-1}
+//   pcrt.<dom> <hist> p <n> a.. r..               = k c_0..c_{k-1} t_0..t_{n-1} acc
 //   prt.<dom> <hist> p <n> a.. <k> c..            = t_0..t_{n-1} k' c'_0..          (RingToRns of a polynomial, then RnsToRing)
 //   mirns <prog> <n> p.. <nb> b.. r.. a           = as irns      (program over several objects, see run_prog)
 //   mrns.<dom> <prog> <n> p.. <nb> b.. r.. a      = as rns.<dom>
@@ -64,6 +64,51 @@ struct Res {
 };
 
 // ------------------------------------------------------------------------------------------ IntRNSsystem
+// final query on an IntRNSsystem: every public member, compared by the driver with the model
+//   x m_0.. c_1.. t_0.. prod y acc      acc = bit mask of accessor agreements (all bits expected):
+//   1 NumOfPrimes()==n  2 Primes()==A  4 ith(i)==A[i]  8 reciprocal(i)==Reciprocals()[i]  16 MixedRadixToRing(m)==x
+//   32 RnsToRing from a container of another integral type == x
+static std::string final_irns(IntRNSsystem<std::vector, std::allocator>& sys, size_t n, const IVec& A, const IVec& R, const Integer& a) {
+    Res o;
+    Integer x; sys.RnsToRing(x, R); o.Z(x);
+    IVec m; sys.RnsToMixedRadix(m, R);
+    for (size_t i = 0; i < n; ++i) o.Z(m[i]);
+    const IVec& ck = sys.Reciprocals();
+    for (size_t i = 1; i < n; ++i) o.Z(ck[i]);
+    IVec t; sys.RingToRns(t, a);
+    for (size_t i = 0; i < n; ++i) o.Z(t[i]);
+    o.Z(sys.product());
+    Integer y; sys.RnsToRing(y, t); o.Z(y);
+    unsigned acc = 0;
+    if ((size_t)sys.NumOfPrimes() == n) acc |= 1;
+    { const IVec& P = sys.Primes(); bool ok = P.size() == n; for (size_t i = 0; ok && i < n; ++i) ok = (P[i] == A[i]); if (ok) acc |= 2; }
+    { bool ok = true; for (size_t i = 0; i < n; ++i) ok = ok && (sys.ith(i) == A[i]); if (ok) acc |= 4; }
+    { bool ok = true; for (size_t i = 1; i < n; ++i) ok = ok && (sys.reciprocal(i) == ck[i]); if (ok) acc |= 8; }
+    { Integer x2; IVec m2(m.begin(), m.begin() + (long)n); sys.MixedRadixToRing(x2, m2); if (x2 == x) acc |= 16; }
+    {
+        bool fitsU = true, fitsS = true;
+        for (auto& r : R) { if (r < 0 || r.bitsize() > 64) fitsU = false; if (r.bitsize() > 62) fitsS = false; }
+        Integer x3;
+        if (fitsU && (n % 2 == 0)) { std::vector<uint64_t> w; for (auto& r : R) w.push_back((uint64_t)r); sys.RnsToRing(x3, w); }
+        else if (fitsS) { std::vector<int64_t> w; for (auto& r : R) w.push_back((int64_t)r); sys.RnsToRing(x3, w); }
+        else sys.RnsToRing(x3, R);
+        if (x3 == x) acc |= 32;
+    }
+    o.N(acc);
+    return o.s;
+}
+
+// construction through the template constructor from a container of another integral type
+static IntRNSsystem<std::vector, std::allocator>* irns_template_ctor(const IVec& X) {
+    typedef IntRNSsystem<std::vector, std::allocator> Sys;
+    bool fits64 = true, fits63 = true, fits32 = true;
+    for (auto& p : X) { if (p < 0 || p.bitsize() > 64) fits64 = false; if (p < 0 || p.bitsize() > 62) fits63 = false; if (p < 0 || p.bitsize() > 32) fits32 = false; }
+    if (fits32 && X.size() % 3 == 0) { std::vector<uint32_t> w; for (auto& p : X) w.push_back((uint32_t)(uint64_t)p); return new Sys(w); }
+    if (fits63 && X.size() % 3 == 1) { std::vector<int64_t> w; for (auto& p : X) w.push_back((int64_t)p); return new Sys(w); }
+    if (fits64) { std::vector<uint64_t> w; for (auto& p : X) w.push_back((uint64_t)p); return new Sys(w); }
+    return new Sys(X);
+}
+
 static std::string run_irns(Cur& c) {
     typedef IntRNSsystem<std::vector, std::allocator> Sys;
     std::string hist = c.str();
@@ -75,12 +120,7 @@ static std::string run_irns(Cur& c) {
     for (char op : hist) {
         switch (op) {
         case 'D': cur.reset(new Sys(A)); break;
-        case 'T': {   // template constructor from a container of another integral type
-            bool fits = true;
-            for (auto& p : A) if (p < 0 || p.bitsize() > 64) fits = false;
-            if (fits) { std::vector<uint64_t> w; for (auto& p : A) w.push_back((uint64_t)p); cur.reset(new Sys(w)); }
-            else cur.reset(new Sys(A));
-            break; }
+        case 'T': cur.reset(irns_template_ctor(A)); break;   // template constructor from a container of another integral type
         case 'O': cur.reset(new Sys(B)); break;
         case 'V': { Sys tmp(A); *cur = tmp; break; }
         case 'q': touch(*cur); break;
@@ -95,20 +135,43 @@ static std::string run_irns(Cur& c) {
         }
     }
     if (!cur || (size_t)cur->NumOfPrimes() != n) return "BADHIST";
-    Res o;
-    Integer x; cur->RnsToRing(x, R); o.Z(x);
-    IVec m; cur->RnsToMixedRadix(m, R);
-    for (size_t i = 0; i < n; ++i) o.Z(m[i]);
-    const IVec& ck = cur->Reciprocals();
-    for (size_t i = 1; i < n; ++i) o.Z(ck[i]);
-    IVec t; cur->RingToRns(t, a);
-    for (size_t i = 0; i < n; ++i) o.Z(t[i]);
-    o.Z(cur->product());
-    Integer y; cur->RnsToRing(y, t); o.Z(y);
-    return o.s;
+    return final_irns(*cur, n, A, R, a);
 }
 
 // ------------------------------------------------------------------------------------------ RNSsystem<Integer, Dom>
+// final query on an RNSsystem<Integer,Dom>: every public member
+//   x m_0.. c_1.. t_0.. y acc     acc bits: 1 size()==n  2 Primes()[i].characteristic()==A[i]  4 ith(i).characteristic()==A[i]
+//   8 reciprocal(i)==Reciprocals()[i]  16 MixedRadixToRing(m)==x  32 MixedRadixToRing rejects a digit array of the wrong size
+template <class Dom>
+static std::string final_rns(RNSsystem<Integer, Dom>& sys, size_t n, const IVec& A, const IVec& R, const Integer& a) {
+    typedef RNSsystem<Integer, Dom> Sys;
+    typedef typename Sys::array Elts;
+    Sys* cur = &sys;
+    Res o;
+    Elts res(n);
+    for (size_t i = 0; i < n; ++i) cur->ith(i).init(res[i], R[i]);
+    Integer x; cur->RnsToRing(x, res); o.Z(x);
+    Elts m; cur->RnsToMixedRadix(m, res);
+    Integer z;
+    for (size_t i = 0; i < n; ++i) o.Z(cur->ith(i).convert(z, m[i]));
+    const Elts& ck = cur->Reciprocals();
+    for (size_t i = 1; i < n; ++i) o.Z(cur->ith(i).convert(z, ck[i]));
+    Elts t; cur->RingToRns(t, a);
+    for (size_t i = 0; i < n; ++i) o.Z(cur->ith(i).convert(z, t[i]));
+    Integer y; cur->RnsToRing(y, t); o.Z(y);
+    unsigned acc = 0;
+    if (cur->size() == n) acc |= 1;
+    { const typename Sys::domains& P = cur->Primes(); bool ok = P.size() == n; for (size_t i = 0; ok && i < n; ++i) ok = (Integer(P[i].characteristic()) == A[i]); if (ok) acc |= 2; }
+    { bool ok = true; for (size_t i = 0; i < n; ++i) ok = ok && (Integer(cur->ith(i).characteristic()) == A[i]); if (ok) acc |= 4; }
+    { bool ok = true; for (size_t i = 1; i < n; ++i) ok = ok && cur->ith(i).areEqual(cur->reciprocal(i), ck[i]); if (ok) acc |= 8; }
+    { Integer x2; Elts m2(n); for (size_t i = 0; i < n; ++i) m2[i] = m[i]; cur->MixedRadixToRing(x2, m2); if (x2 == x) acc |= 16; }
+    // the rejection the code defines: a digit array of the wrong size makes MixedRadixToRing throw GivError
+    { Integer x2; Elts m3(n + 1); for (size_t i = 0; i < n; ++i) m3[i] = m[i]; m3[n] = m[0];
+      try { cur->MixedRadixToRing(x2, m3); } catch (GivError&) { acc |= 32; } }
+    o.N(acc);
+    return o.s;
+}
+
 template <class Dom>
 static std::string run_rns(Cur& c) {
     typedef RNSsystem<Integer, Dom> Sys;
@@ -141,19 +204,7 @@ static std::string run_rns(Cur& c) {
         }
     }
     if (!cur || cur->size() != n) return "BADHIST";
-    Res o;
-    Elts res(n);
-    for (size_t i = 0; i < n; ++i) cur->ith(i).init(res[i], R[i]);
-    Integer x; cur->RnsToRing(x, res); o.Z(x);
-    Elts m; cur->RnsToMixedRadix(m, res);
-    Integer z;
-    for (size_t i = 0; i < n; ++i) o.Z(cur->ith(i).convert(z, m[i]));
-    const Elts& ck = cur->Reciprocals();
-    for (size_t i = 1; i < n; ++i) o.Z(cur->ith(i).convert(z, ck[i]));
-    Elts t; cur->RingToRns(t, a);
-    for (size_t i = 0; i < n; ++i) o.Z(cur->ith(i).convert(z, t[i]));
-    Integer y; cur->RnsToRing(y, t); o.Z(y);
-    return o.s;
+    return final_rns<Dom>(*cur, n, A, R, a);
 }
 
 // ------------------------------------------------------------------------------------------ RNSsystemFixed<Integer>
@@ -175,8 +226,22 @@ static std::string run_fixed(Cur& c) {
         }
     }
     if (!cur) return "BADHIST";
+    // x | the whole table Primes(): number of levels, then per level its size and entries | size() | ith(0..n-1) | x from another container
     Res o;
     Integer x; cur->RnsToRing(x, R); o.Z(x);
+    const Sys::tree& T = cur->Primes();
+    o.N(T.size());
+    for (auto& lev : T) { o.N(lev.size()); for (auto& e : lev) o.Z(e); }
+    o.N((size_t)cur->size());
+    for (size_t i = 0; i < n; ++i) o.Z(cur->ith(i));
+    {
+        bool fitsU = true;
+        for (auto& r : R) if (r < 0 || r.bitsize() > 64) fitsU = false;
+        Integer x3;
+        if (fitsU) { std::vector<uint64_t> w; for (auto& r : R) w.push_back((uint64_t)r); cur->RnsToRing(x3, w); }
+        else { Array0<Integer> w(n); for (size_t i = 0; i < n; ++i) w[i] = R[i]; cur->RnsToRing(x3, w); }
+        o.Z(x3);
+    }
     return o.s;
 }
 
@@ -210,13 +275,8 @@ static std::string run_mirns(Cur& c) {
         const IVec& X = (op.size() > 2 && op[2] == 'B') ? B : A;
         switch (op[0]) {
         case 'n': slot[S].reset(new Sys(X)); break;
-        case 't': {
-            bool fits = true;
-            for (auto& p : X) if (p < 0 || p.bitsize() > 64) fits = false;
-            if (fits) { std::vector<uint64_t> w; for (auto& p : X) w.push_back((uint64_t)p); slot[S].reset(new Sys(w)); }
-            else slot[S].reset(new Sys(X));
-            break; }
-        case 'd': slot[S].reset(new Sys()); break;
+        case 't': slot[S].reset(irns_template_ctor(X)); break;
+        case 'd': slot[S].reset(new Sys()); if (slot[S]->NumOfPrimes() != 0) return "BADSTATE"; break;
         case 'c': { if (T > 3 || !slot[T] || S == T) return "BADPROG"; Sys* n2 = new Sys(*slot[T]); slot[S].reset(n2); break; }
         case 'a': { if (T > 3 || !slot[T] || !slot[S]) return "BADPROG"; *slot[S] = *slot[T]; break; }
         case 'q': if (!slot[S]) return "BADPROG"; touch(*slot[S]); break;
@@ -228,17 +288,7 @@ static std::string run_mirns(Cur& c) {
     }
     if (!fin) return "BADPROG";
     if ((size_t)fin->NumOfPrimes() != n) return "BADSTATE";     // the object does not hold the moduli the program gave it
-    Res o;
-    Integer x; fin->RnsToRing(x, R); o.Z(x);
-    IVec m; fin->RnsToMixedRadix(m, R);
-    for (size_t i = 0; i < n; ++i) o.Z(m[i]);
-    const IVec& ck = fin->Reciprocals();
-    for (size_t i = 1; i < n; ++i) o.Z(ck[i]);
-    IVec t; fin->RingToRns(t, a);
-    for (size_t i = 0; i < n; ++i) o.Z(t[i]);
-    o.Z(fin->product());
-    Integer y; fin->RnsToRing(y, t); o.Z(y);
-    return o.s;
+    return final_irns(*fin, n, A, R, a);
 }
 
 template <class Dom>
@@ -263,7 +313,7 @@ static std::string run_mrns(Cur& c) {
         const Doms& X = (op.size() > 2 && op[2] == 'B') ? dB : dA;
         switch (op[0]) {
         case 'n': slot[S].reset(new Sys(X)); break;
-        case 'd': slot[S].reset(new Sys()); break;
+        case 'd': slot[S].reset(new Sys()); if (slot[S]->size() != 0) return "BADSTATE"; break;
         case 'c': { if (T > 3 || !slot[T] || S == T) return "BADPROG"; Sys* n2 = new Sys(*slot[T]); slot[S].reset(n2); break; }
         case 'a': { if (T > 3 || !slot[T] || !slot[S]) return "BADPROG"; *slot[S] = *slot[T]; break; }
         case 's': if (!slot[S]) return "BADPROG"; slot[S]->setPrimes(X); break;
@@ -275,20 +325,7 @@ static std::string run_mrns(Cur& c) {
     }
     if (!fin) return "BADPROG";
     if (fin->size() != n) return "BADSTATE";                    // the object does not hold the moduli the program gave it
-    Sys* cur = fin;
-    Res o;
-    Elts res(n);
-    for (size_t i = 0; i < n; ++i) cur->ith(i).init(res[i], R[i]);
-    Integer x; cur->RnsToRing(x, res); o.Z(x);
-    Elts m; cur->RnsToMixedRadix(m, res);
-    Integer z;
-    for (size_t i = 0; i < n; ++i) o.Z(cur->ith(i).convert(z, m[i]));
-    const Elts& ck = cur->Reciprocals();
-    for (size_t i = 1; i < n; ++i) o.Z(cur->ith(i).convert(z, ck[i]));
-    Elts t; cur->RingToRns(t, a);
-    for (size_t i = 0; i < n; ++i) o.Z(cur->ith(i).convert(z, t[i]));
-    Integer y; cur->RnsToRing(y, t); o.Z(y);
-    return o.s;
+    return final_rns<Dom>(*fin, n, A, R, a);
 }
 
 // ------------------------------------------------------------------------------------------ ChineseRemainder functor
@@ -355,6 +392,18 @@ static std::string run_pcrt(Cur& c) {
     for (size_t i = 0; i < k; ++i) o.Z(F.convert(z, P[i]));
     VScal t; cur->RingToRns(t, P);
     for (size_t i = 0; i < n; ++i) o.Z(F.convert(z, t[i]));
+    // accessors: 1 size()==n  2 Primes()==points  4 ith(i)==points[i]  8 reciprocal(i)==Reciprocals()[i]  16 getdomain() is F
+    // 32 getpolydom() evaluates P like RingToRns  (write() is executed; its text is property C19)
+    unsigned acc = 0;
+    if ((size_t)cur->size() == n) acc |= 1;
+    { const VScal& Q = cur->Primes(); bool ok = Q.size() == n; for (size_t i = 0; ok && i < n; ++i) ok = F.areEqual(Q[i], pts[i]); if (ok) acc |= 2; }
+    { bool ok = true; for (size_t i = 0; i < n; ++i) ok = ok && F.areEqual(cur->ith(i), pts[i]); if (ok) acc |= 4; }
+    { const typename Sys::array_E& ck = cur->Reciprocals(); bool ok = ck.size() == n + 1;
+      for (size_t i = 1; ok && i < n; ++i) ok = cur->getpolydom().areEqual(cur->reciprocal(i), ck[i]); if (ok) acc |= 8; }
+    if (Integer(cur->getdomain().characteristic()) == p) acc |= 16;
+    { bool ok = true; typename Dom::Element v; for (size_t i = 0; i < n; ++i) { cur->getpolydom().eval(v, P, pts[i]); ok = ok && F.areEqual(v, t[i]); } if (ok) acc |= 32; }
+    { std::ostringstream os; cur->write(os); cur->write(os, P); if (n) cur->write(os, pts[0]); }
+    o.N(acc);
     return o.s;
 }
 
@@ -786,7 +835,9 @@ struct Gen {
             Integer w32(1); w32 <<= 32; Integer w64(1); w64 <<= 64; Integer w200(1); w200 <<= 200;
             size_t nf = thorough ? 3000 : 400;
             for (size_t i = 0; i < nf; ++i) {
-                size_t n = i < 45 ? 1 + i % 15 : 1 + rng.below(rng.below(4) ? 12 : 40);
+                // every number of moduli 1..40 in turn, the powers of two (complete trees: the final reduction is the only one) again
+                static const size_t pow2[] = {2, 4, 8, 16, 32};
+                size_t n = i < 80 ? 1 + i % 40 : (i % 4 == 0 ? pow2[rng.below(5)] : 1 + rng.below(rng.below(4) ? 12 : 40));
                 Integer lo = two, hi = w32;
                 switch (rng.below(5)) { case 0: hi = Integer(200); break; case 1: lo = w64 - 500; hi = w64 + 500; break; case 2: hi = w200; break; case 3: lo = w32 - 500; hi = w32 + 500; break; default: break; }
                 IVec A = moduli(n, lo, hi, false, (int)rng.below(5));
@@ -821,6 +872,11 @@ static void run_one(const std::string& line) {
 // Cases run in forked children (batches): a crash / sanitizer abort is attributed to the exact input line
 // ("<line> = CRASH") and the remaining cases still run.
 static void run_all(const std::vector<std::string>& lines) {
+#ifdef VERIF_COVERAGE_BUILD
+    for (auto& l : lines) run_one(l);      // gcov counters of _exit()ing children would be lost
+    fflush(stdout);
+    return;
+#endif
     const size_t K = 400;
     size_t i = 0;
     while (i < lines.size()) {
